@@ -15,6 +15,7 @@ import (
 	"os"
 	"sort"
 	"strconv"
+	"strings"
 	"sync"
 	"time"
 
@@ -86,6 +87,15 @@ type divergence struct {
 	Prop string
 	What string
 	Msg  string
+}
+
+// alsoProps: further properties a divergence decides besides its own (keyed by What prefix)
+func alsoProps(d *divergence) []string {
+	if d.Prop == "C17" && (strings.HasPrefix(d.What, "status:U->J") || strings.HasPrefix(d.What, "status:U->F") || strings.HasPrefix(d.What, "status:J->F") ||
+		strings.HasPrefix(d.What, "treestatus:U->J") || strings.HasPrefix(d.What, "treestatus:U->F") || strings.HasPrefix(d.What, "treestatus:J->F")) {
+		return []string{"C16"} // justified / finalized before the rule allows it: finality safety rests on this
+	}
+	return nil
 }
 
 type vote struct {
@@ -443,7 +453,7 @@ func main() {
 				return nil
 			}
 			if d := replay(st, nv, me); d != nil {
-				vh.Violation(d.Prop+":"+st[d.Step].Call.Op+":"+d.What, d.Msg, map[string]interface{}{"engine": "casper", "N": nv, "Me": me, "steps": st, "diverges_at": d.Step, "prop": d.Prop})
+				vh.Violation(d.Prop+":"+st[d.Step].Call.Op+":"+d.What, d.Msg, map[string]interface{}{"engine": "casper", "N": nv, "Me": me, "steps": st, "diverges_at": d.Step, "prop": d.Prop, "also": alsoProps(d)})
 			}
 			if cases%4000 == 11 {
 				vh.Sample(st)
